@@ -2362,6 +2362,1315 @@ Proof.
     + now apply IHk.
     + intros x Hx Hy. apply in_flat_map in Hy as (k' & Hk' & Hy).
       apply paths_from_shape in Hx as [l1 E1]. apply paths_from_shape in Hy as [l2 E2].
-      rewrite E1 in E2. rewrite <- !app_assoc in E2. apply app_inv_head in E2. cbn in E2.
-      inversion E2 as [[En _]]. apply Hnk. rewrite En. now apply in_map.
+      rewrite E1 in E2. apply app_inv_head in E2.
+      inversion E2 as [[En El]]. apply Hnk. rewrite En. now apply in_map.
 Qed.
+
+(* ======================================================================================== *)
+(* 22. attribute dictionaries as maps                                                         *)
+
+Definition aeq (a b : attrs) : Prop := forall k, attr_get a k = attr_get b k.
+
+Lemma aeq_refl a : aeq a a.
+Proof. intros k. reflexivity. Qed.
+Lemma aeq_trans a b c : aeq a b -> aeq b c -> aeq a c.
+Proof. intros H1 H2 k. now rewrite H1. Qed.
+Lemma aeq_sym a b : aeq a b -> aeq b a.
+Proof. intros H k. now rewrite H. Qed.
+
+Lemma str_eqb_sym a b : str_eqb a b = str_eqb b a.
+Proof.
+  destruct (str_eqb a b) eqn:E.
+  - apply str_eqb_eq in E. subst. now rewrite str_eqb_refl.
+  - destruct (str_eqb b a) eqn:E'; [|reflexivity]. apply str_eqb_eq in E'. subst.
+    rewrite str_eqb_refl in E. discriminate.
+Qed.
+
+Lemma attr_get_attr_set a k v k' :
+  attr_get (attr_set a k v) k' = if str_eqb k k' then Some v else attr_get a k'.
+Proof.
+  induction a as [|[k0 v0] a IH]; cbn [attr_set attr_get].
+  - reflexivity.
+  - destruct (str_eqb k0 k) eqn:E; cbn [attr_get].
+    + apply str_eqb_eq in E. subst k0. destruct (str_eqb k k'); reflexivity.
+    + rewrite IH. destruct (str_eqb k0 k') eqn:E2; [|reflexivity].
+      apply str_eqb_eq in E2. subst k0. now rewrite str_eqb_sym, E.
+Qed.
+
+Lemma attr_set_aeq a b k v : aeq a b -> aeq (attr_set a k v) (attr_set b k v).
+Proof. intros H k'. rewrite !attr_get_attr_set. destruct (str_eqb k k'); [reflexivity|apply H]. Qed.
+
+Lemma set_attrs_cons a k v new : set_attrs a ((k, v) :: new) = set_attrs (attr_set a k v) new.
+Proof. reflexivity. Qed.
+
+Lemma set_attrs_aeq new : forall a b, aeq a b -> aeq (set_attrs a new) (set_attrs b new).
+Proof.
+  induction new as [|[k v] new IH]; intros a b H; [exact H|].
+  rewrite !set_attrs_cons. apply IH. now apply attr_set_aeq.
+Qed.
+
+(* keys stay distinct *)
+Lemma attr_set_keys a k v :
+  NoDup (map fst a) -> NoDup (map fst (attr_set a k v)) /\
+  (forall x, In x (map fst (attr_set a k v)) <-> x = k \/ In x (map fst a)).
+Proof.
+  induction a as [|[k0 v0] a IH]; intros Hn; cbn [attr_set].
+  - split; [repeat constructor; intros []|]. cbn. intros x. intuition.
+  - cbn in Hn. inversion Hn as [|? ? Hk Hr]; subst. destruct (str_eqb k0 k) eqn:E.
+    + apply str_eqb_eq in E. subst. cbn. split; [constructor; assumption|]. intros x. intuition.
+    + destruct (IH Hr) as [H1 H2]. cbn [map fst]. split.
+      * constructor; [|exact H1]. intros Hin. apply H2 in Hin as [->|Hin]; [|contradiction].
+        rewrite str_eqb_refl in E. discriminate.
+      * intros x. cbn [In]. rewrite H2. intuition.
+Qed.
+
+Lemma set_attrs_keys new : forall a, NoDup (map fst a) -> NoDup (map fst (set_attrs a new)).
+Proof.
+  induction new as [|[k v] new IH]; intros a H; [exact H|].
+  rewrite set_attrs_cons. apply IH. now apply attr_set_keys.
+Qed.
+
+(* applying the same dict twice is the same map as applying it once *)
+Lemma attr_set_twice a k v k2 v2 :
+  aeq (attr_set (attr_set (attr_set a k v) k2 v2) k v) (attr_set (attr_set a k2 v2) k v).
+Proof.
+  intros x. rewrite !attr_get_attr_set. destruct (str_eqb k x), (str_eqb k2 x); reflexivity.
+Qed.
+
+Lemma attr_get_set_attrs_last new : forall a k,
+  attr_get (set_attrs a new) k
+  = match attr_get (rev new) k with Some v => Some v | None => attr_get a k end.
+Proof.
+  induction new as [|[k0 v0] new IH]; intros a k; [reflexivity|].
+  rewrite set_attrs_cons, IH, attr_get_attr_set. cbn [rev].
+  assert (G : forall l, attr_get (l ++ [(k0, v0)]) k
+                = match attr_get l k with Some v => Some v | None => if str_eqb k0 k then Some v0 else None end).
+  { induction l as [|[k1 v1] l IHl]; cbn; [reflexivity|]. destruct (str_eqb k1 k); [reflexivity|apply IHl]. }
+  rewrite G. destruct (attr_get (rev new) k); [reflexivity|]. destruct (str_eqb k0 k); reflexivity.
+Qed.
+
+Lemma set_attrs_idem a new : aeq (set_attrs (set_attrs a new) new) (set_attrs a new).
+Proof.
+  intros k. rewrite !attr_get_set_attrs_last. destruct (attr_get (rev new) k); reflexivity.
+Qed.
+
+Lemma set_attrs_nil a : set_attrs a [] = a.
+Proof. reflexivity. Qed.
+
+(* reflection of the boolean comparison of Spec/PC05.v *)
+Lemma val_eqb_refl v : val_eqb v v = true.
+Proof.
+  destruct v as [|z|s|b|n d]; cbn;
+    [reflexivity|apply Z.eqb_refl|apply str_eqb_refl|destruct b; reflexivity|apply Z.eqb_refl].
+Qed.
+
+Lemma nodup_str_true l : NoDup l -> nodup_str l = true.
+Proof.
+  induction 1 as [|x l Hx Hl IH]; [reflexivity|]. cbn. rewrite IH, andb_true_r.
+  apply negb_true_iff. destruct (existsb (str_eqb x) l) eqn:E; [|reflexivity].
+  apply existsb_exists in E as (y & Hy & Ey). apply str_eqb_eq in Ey. subst. contradiction.
+Qed.
+
+Lemma nodup_str_NoDup l : nodup_str l = true -> NoDup l.
+Proof.
+  induction l as [|x l IH]; intros H; [constructor|]. cbn in H. apply andb_true_iff in H as [H1 H2].
+  constructor; [|now apply IH]. intros Hin. apply negb_true_iff in H1.
+  assert (existsb (str_eqb x) l = true); [|congruence].
+  apply existsb_exists. exists x. split; [exact Hin|apply str_eqb_refl].
+Qed.
+
+Lemma attr_get_In a k v : NoDup (map fst a) -> In (k, v) a -> attr_get a k = Some v.
+Proof.
+  induction a as [|[k0 v0] a IH]; intros Hn Hin; [contradiction|]. cbn in Hn.
+  inversion Hn as [|? ? Hk Hr]; subst. cbn [attr_get]. destruct Hin as [E|Hin].
+  - inversion E; subst. now rewrite str_eqb_refl.
+  - destruct (str_eqb k0 k) eqn:E; [|now apply IH]. apply str_eqb_eq in E. subst.
+    exfalso. apply Hk. change k with (fst (k, v)). now apply in_map.
+Qed.
+
+Lemma attrs_sub_true a b : NoDup (map fst a) -> aeq a b -> attrs_sub a b = true.
+Proof.
+  intros Hn H. unfold attrs_sub. apply forallb_forall. intros [k v] Hin. cbn [fst snd].
+  rewrite <- H, (attr_get_In a k v Hn Hin). apply val_eqb_refl.
+Qed.
+
+Lemma attrs_equiv_true a b :
+  NoDup (map fst a) -> NoDup (map fst b) -> aeq a b -> attrs_equiv a b = true.
+Proof.
+  intros Ha Hb H. unfold attrs_equiv.
+  rewrite (nodup_str_true _ Ha), (nodup_str_true _ Hb), (attrs_sub_true a b Ha H),
+    (attrs_sub_true b a Hb (aeq_sym _ _ H)). reflexivity.
+Qed.
+
+(* ======================================================================================== *)
+(* 23. attribute exactness over all rows of a loop of add_path_to_tree calls                  *)
+
+Definition step_attrs (b : path) (na : attrs) (P : path) (a : attrs) : attrs :=
+  if path_eqb b P then set_attrs a na else a.
+(* what the rows naming path P do to a dictionary, in row order *)
+Definition upd_for (sep : str) (rows : list row) (P : path) (a : attrs) : attrs :=
+  fold_left (fun a r => step_attrs (branch_of (fst r) sep) (snd r) P a) rows a.
+Definition attrs_at (t : tree) (q : pos) : attrs :=
+  match subtree_at t q with Some s => tattrs s | None => [] end.
+Definition attrs_wf (t : tree) : Prop :=
+  forall q s, subtree_at t q = Some s -> NoDup (map fst (tattrs s)).
+
+Lemma upd_for_aeq sep rows P : forall a b, aeq a b -> aeq (upd_for sep rows P a) (upd_for sep rows P b).
+Proof.
+  induction rows as [|r rows IH]; intros a b H; [exact H|]. cbn [upd_for fold_left].
+  apply IH. unfold step_attrs. destruct (path_eqb _ _); [now apply set_attrs_aeq|exact H].
+Qed.
+
+Lemma upd_for_keys sep rows P : forall a, NoDup (map fst a) -> NoDup (map fst (upd_for sep rows P a)).
+Proof.
+  induction rows as [|r rows IH]; intros a H; [exact H|]. cbn [upd_for fold_left].
+  apply IH. unfold step_attrs. destruct (path_eqb _ _); [now apply set_attrs_keys|exact H].
+Qed.
+
+Lemma add_path_attrs_step t tsep path sep na t1 p :
+  sib_ok t -> add_path_to_tree t tsep path sep true na = (t1, Ret p) ->
+  forall q s1, subtree_at t1 q = Some s1 ->
+    aeq (tattrs s1) (step_attrs (branch_of path sep) na (names_along t1 q) (attrs_at t q)).
+Proof.
+  intros Hw H q s1 Hq.
+  destruct (add_path_attrs _ _ _ _ _ _ _ H) as ((sp & Hsp & Hap) & Hold & Hnew).
+  destruct (add_path_returns _ _ _ _ _ _ _ H) as [_ Hn].
+  destruct (add_path_reuses _ _ _ _ _ _ _ H) as (_ & _ & Hs). specialize (Hs Hw).
+  unfold step_attrs, attrs_at.
+  destruct (list_eq_dec Nat.eq_dec q p) as [->|Hne].
+  - rewrite Hn, path_eqb_refl. rewrite Hsp in Hq. inversion Hq; subst s1. rewrite Hap.
+    destruct (subtree_at t p); [apply aeq_refl|apply set_attrs_idem].
+  - destruct (path_eqb (branch_of path sep) (names_along t1 q)) eqn:E.
+    + apply path_eqb_eq in E. rewrite <- Hn in E. exfalso. apply Hne. symmetry.
+      eapply names_along_inj; eauto.
+    + destruct (subtree_at t q) as [s|] eqn:Hq0.
+      * destruct (Hold q s Hne Hq0) as (s' & Hs' & Ha). rewrite Hq in Hs'. inversion Hs'; subst.
+        rewrite Ha. apply aeq_refl.
+      * rewrite (Hnew q s1 Hne Hq0 Hq). apply aeq_refl.
+Qed.
+
+Lemma add_path_attrs_wf t tsep path sep na t1 p :
+  attrs_wf t -> add_path_to_tree t tsep path sep true na = (t1, Ret p) -> attrs_wf t1.
+Proof.
+  intros Hwf H q s1 Hq.
+  destruct (add_path_attrs _ _ _ _ _ _ _ H) as ((sp & Hsp & Hap) & Hold & Hnew).
+  destruct (list_eq_dec Nat.eq_dec q p) as [->|Hne].
+  - rewrite Hsp in Hq. inversion Hq; subst s1. rewrite Hap. apply set_attrs_keys.
+    destruct (subtree_at t p) as [s|] eqn:E; [eapply Hwf; eauto|]. apply set_attrs_keys. constructor.
+  - destruct (subtree_at t q) as [s|] eqn:Hq0.
+    + destruct (Hold q s Hne Hq0) as (s' & Hs' & Ha). rewrite Hq in Hs'. inversion Hs'; subst.
+      rewrite Ha. eapply Hwf; eauto.
+    + rewrite (Hnew q s1 Hne Hq0 Hq). constructor.
+Qed.
+
+(* C05_attrs_rows_exact *)
+Theorem add_rows_attrs tsep sep : forall rows t acc t' ps,
+  sib_ok t -> add_rows t tsep sep true rows acc = (t', Ret ps) ->
+  forall q s', subtree_at t' q = Some s' ->
+    aeq (tattrs s') (upd_for sep rows (names_along t' q) (attrs_at t q)).
+Proof.
+  induction rows as [|[path na] rows IH]; intros t acc t' ps Hw H q s' Hq; cbn [add_rows] in H.
+  - inversion H; subst. unfold attrs_at. rewrite Hq. apply aeq_refl.
+  - destruct (add_path_to_tree t tsep path sep true na) as [t1 [p|e]] eqn:Ha; [|discriminate].
+    destruct (add_path_reuses _ _ _ _ _ _ _ Ha) as (Hkeep & _ & Hs1). specialize (Hs1 Hw).
+    eapply aeq_trans; [eapply IH; eauto|].
+    cbn [upd_for fold_left fst snd]. apply upd_for_aeq.
+    destruct (subtree_at t1 q) as [s1|] eqn:Hq1.
+    + destruct (add_rows_positions _ _ _ _ _ _ _ H q s1 Hq1) as (s2 & Hs2 & Hn2 & _).
+      rewrite Hn2. unfold attrs_at at 1. rewrite Hq1.
+      eapply add_path_attrs_step; eauto.
+    + unfold attrs_at. rewrite Hq1.
+      destruct (subtree_at t q) as [s0|] eqn:Hq0.
+      { destruct (Hkeep q s0 Hq0) as (sx & Hsx & _). congruence. }
+      unfold step_attrs.
+      destruct (path_eqb (branch_of path sep) (names_along t' q)) eqn:E; [|apply aeq_refl].
+      exfalso. apply path_eqb_eq in E.
+      destruct (add_path_positions _ _ _ _ _ _ _ Ha) as (_ & Hnp & sp & Hsp).
+      destruct (add_rows_positions _ _ _ _ _ _ _ H p sp Hsp) as (sp' & Hsp' & Hnp' & _).
+      assert (p = q).
+      { eapply (names_along_inj p t' q); eauto; [eapply add_rows_sib_ok; eauto|congruence]. }
+      subst q. congruence.
+Qed.
+
+Lemma add_rows_attrs_wf tsep sep : forall rows t acc t' ps,
+  attrs_wf t -> add_rows t tsep sep true rows acc = (t', Ret ps) -> attrs_wf t'.
+Proof.
+  induction rows as [|[path na] rows IH]; intros t acc t' ps Hwf H; cbn [add_rows] in H.
+  - inversion H; subst. exact Hwf.
+  - destruct (add_path_to_tree t tsep path sep true na) as [t1 [p|e]] eqn:Ha; [|discriminate].
+    eapply IH; [|exact H]. eapply add_path_attrs_wf; eauto.
+Qed.
+
+(* ======================================================================================== *)
+(* 24. reading a path string: the specification's spec_parse against the code's branch_of      *)
+
+Fixpoint splitc (c : N) (s : str) : list str :=
+  match s with
+  | [] => [[]]
+  | ch :: t => if N.eqb c ch then [] :: splitc c t
+               else match splitc c t with h :: r => (ch :: h) :: r | [] => [[ch]] end
+  end.
+
+Lemma splitc_nonempty c s : splitc c s <> [].
+Proof. destruct s as [|ch t]; cbn; [discriminate|]. destruct (N.eqb c ch); [discriminate|]. destruct (splitc c t); discriminate. Qed.
+
+Lemma split_go_splitc c : forall s cur fuel,
+  length s < fuel ->
+  split_go fuel [c] cur s = match splitc c s with h :: r => (rev cur ++ h) :: r | [] => [] end.
+Proof.
+  induction s as [|ch t IH]; intros cur fuel Hf; (destruct fuel as [|f]; [cbn in Hf; lia|]).
+  - cbn. now rewrite app_nil_r.
+  - cbn [split_go splitc]. rewrite startswith_single. destruct (N.eqb c ch) eqn:E.
+    + cbn [skipn length]. rewrite app_nil_r. f_equal. rewrite IH by (cbn in Hf; lia).
+      cbn [rev app]. pose proof (splitc_nonempty c t). destruct (splitc c t); [congruence|reflexivity].
+    + rewrite IH by (cbn in Hf; lia). pose proof (splitc_nonempty c t).
+      destruct (splitc c t) as [|h r]; [congruence|]. cbn [rev]. now rewrite <- app_assoc.
+Qed.
+
+Lemma split_splitc c s : split s [c] = splitc c s.
+Proof.
+  unfold split. rewrite split_go_splitc by lia. pose proof (splitc_nonempty c s).
+  destruct (splitc c s); [congruence|reflexivity].
+Qed.
+
+Lemma memN_single ch c : memN ch [c] = N.eqb c ch.
+Proof. cbn. now rewrite orb_false_r, N.eqb_sym. Qed.
+
+Lemma lstrip_cons ch t c : lstrip (ch :: t) [c] = if N.eqb c ch then lstrip t [c] else ch :: t.
+Proof. cbn [lstrip]. now rewrite memN_single. Qed.
+
+Lemma splitc_lstrip c : forall s,
+  lstrip s [c] <> [] -> drop_empty (splitc c s) = splitc c (lstrip s [c]).
+Proof.
+  induction s as [|ch t IH]; intros H; [cbn in H; congruence|].
+  rewrite lstrip_cons in *. cbn [splitc]. destruct (N.eqb c ch) eqn:E.
+  - cbn [drop_empty]. now apply IH.
+  - cbn [splitc]. rewrite E. pose proof (splitc_nonempty c t). destruct (splitc c t); [congruence|reflexivity].
+Qed.
+
+Lemma splitc_lstrip_nil c : forall s, lstrip s [c] = [] -> drop_empty (splitc c s) = [].
+Proof.
+  induction s as [|ch t IH]; intros H; [reflexivity|].
+  rewrite lstrip_cons in H. cbn [splitc]. destruct (N.eqb c ch); [|discriminate]. cbn. now apply IH.
+Qed.
+
+Lemma splitc_snoc_sep c : forall s, splitc c (s ++ [c]) = splitc c s ++ [[]].
+Proof.
+  induction s as [|ch t IH]; cbn [app splitc].
+  - now rewrite N.eqb_refl.
+  - rewrite IH. destruct (N.eqb c ch); [reflexivity|].
+    pose proof (splitc_nonempty c t). destruct (splitc c t); [congruence|reflexivity].
+Qed.
+
+Lemma splitc_snoc_other c x : forall s,
+  N.eqb c x = false ->
+  splitc c (s ++ [x]) = removelast (splitc c s) ++ [last (splitc c s) [] ++ [x]].
+Proof.
+  induction s as [|ch t IH]; intros Hx; cbn [app splitc].
+  - rewrite Hx. reflexivity.
+  - rewrite (IH Hx). pose proof (splitc_nonempty c t) as Hne.
+    destruct (N.eqb c ch).
+    + destruct (splitc c t) as [|h r]; [congruence|]. reflexivity.
+    + destruct (splitc c t) as [|h r]; [congruence|]. destruct r as [|h2 r]; reflexivity.
+Qed.
+
+Lemma splitc_rev c : forall s, splitc c (rev s) = rev (map (@rev N) (splitc c s)).
+Proof.
+  induction s as [|ch t IH]; [reflexivity|]. cbn [rev splitc]. destruct (N.eqb c ch) eqn:E.
+  - apply N.eqb_eq in E. subst ch. rewrite splitc_snoc_sep, IH. reflexivity.
+  - rewrite (splitc_snoc_other c ch _ E), IH.
+    pose proof (splitc_nonempty c t) as Hne. destruct (splitc c t) as [|h r]; [congruence|].
+    cbn [map rev]. now rewrite removelast_last, last_last.
+Qed.
+
+Lemma drop_empty_map_rev l : drop_empty (map (@rev N) l) = map (@rev N) (drop_empty l).
+Proof.
+  induction l as [|x l IH]; [reflexivity|]. destruct x as [|ch x]; [exact IH|].
+  cbn [map rev drop_empty]. destruct (rev x ++ [ch]) eqn:E; [destruct (rev x); discriminate|]. reflexivity.
+Qed.
+
+Lemma lstrip_nil_all c : forall s, lstrip s [c] = [] -> forall x, In x s -> x = c.
+Proof.
+  induction s as [|ch t IH]; intros H x Hx; [contradiction|]. rewrite lstrip_cons in H.
+  destruct (N.eqb c ch) eqn:E; [|discriminate]. apply N.eqb_eq in E. destruct Hx as [<-|Hx]; [now subst|now apply IH].
+Qed.
+
+Lemma lstrip_hd c : forall s ch r, lstrip s [c] = ch :: r -> ch <> c.
+Proof.
+  induction s as [|x t IH]; intros ch r H; [discriminate|]. rewrite lstrip_cons in H.
+  destruct (N.eqb c x) eqn:E; [eapply IH; eauto|]. inversion H; subst. intros ->. now rewrite N.eqb_refl in E.
+Qed.
+
+(* for a string that is not made of separators only, both readings agree *)
+Lemma parse_agree c s : lstrip s [c] <> [] -> spec_parse s [c] = branch_of s [c].
+Proof.
+  intros H. unfold spec_parse, branch_of. rewrite !split_splitc, (splitc_lstrip c s H).
+  set (m := lstrip s [c]) in *. unfold rstrip.
+  assert (Hm : lstrip (rev m) [c] <> []).
+  { intros E. destruct m as [|ch r] eqn:Em; [congruence|].
+    apply (lstrip_hd c s ch r Em). apply (lstrip_nil_all c _ E). apply in_rev. rewrite rev_involutive. now left. }
+  assert (R : rev (splitc c m) = map (@rev N) (splitc c (rev m))).
+  { rewrite splitc_rev, map_rev, map_map. f_equal.
+    erewrite map_ext; [symmetry; apply map_id|]. intros x. apply rev_involutive. }
+  rewrite R, drop_empty_map_rev, (splitc_lstrip c _ Hm), splitc_rev. reflexivity.
+Qed.
+
+Lemma parse_empty c s : lstrip s [c] = [] -> spec_parse s [c] = [] /\ branch_of s [c] = [[]].
+Proof.
+  intros H. unfold spec_parse, branch_of. rewrite H, !split_splitc, (splitc_lstrip_nil c s H). split; reflexivity.
+Qed.
+
+(* ======================================================================================== *)
+(* 25. acceptance of a loop of calls (duplicates allowed)                                     *)
+
+Definition nonempty_names (t : tree) : Prop := forall n, In n (names t) -> n <> [].
+
+Lemma ins_names_incl rest na : forall t x,
+  In x (names (fst (ins rest na t))) -> In x (names t) \/ In x rest.
+Proof.
+  induction rest as [|nm rest IH]; intros t x H; [now left|]. cbn [ins] in H.
+  destruct (find_idx nm 0 (tkids t)) as [|i [|j r]] eqn:F; cbn [fst] in H; try (now left).
+  - destruct (is_nil nm); cbn [fst] in H; [now left|].
+    destruct t as [g n a ks]. cbn [add_kid tkids] in H. rewrite names_unfold, flat_map_app in H.
+    cbn [flat_map] in H. rewrite app_nil_r in H. rewrite names_unfold.
+    destruct H as [->|H]; [left; now left|]. apply in_app_or in H as [H|H]; [left; now right|].
+    apply IH in H as [H|H]; [|right; now right]. rewrite names_unfold in H. cbn in H.
+    destruct H as [<-|[]]. right. now left.
+  - destruct (nth_error (tkids t) i) as [k|] eqn:Hk; cbn [fst] in H; [|now left].
+    destruct t as [g n a ks]. cbn [tkids] in *. rewrite upd_at_cons in H. cbn [upd_at] in H.
+    rewrite names_unfold in *. destruct H as [->|H]; [left; now left|].
+    apply in_flat_map in H as (k' & Hk' & Hx).
+    apply In_nth_error in Hk' as [j Hj].
+    destruct (Nat.eq_dec i j) as [<-|Hne].
+    + rewrite nth_error_upd_nth, Hk in Hj. cbn in Hj. inversion Hj; subst k'.
+      apply IH in Hx as [Hx|Hx]; [|right; now right]. left. right. apply in_flat_map. exists k.
+      split; [eapply nth_error_In; eauto|exact Hx].
+    + rewrite nth_error_upd_nth_other in Hj by exact Hne. left. right. apply in_flat_map. exists k'.
+      split; [eapply nth_error_In; eauto|exact Hx].
+Qed.
+
+Lemma ins_ok_nonempty rest na : forall t p,
+  nonempty_names t -> snd (ins rest na t) = Ret p -> Forall (fun x => x <> []) rest.
+Proof.
+  induction rest as [|nm rest IH]; intros t p Hne H; [constructor|]. cbn [ins] in H.
+  destruct (find_idx nm 0 (tkids t)) as [|i [|j r]] eqn:F; cbn [snd] in H; try discriminate.
+  - destruct (is_nil nm) eqn:En; [discriminate|]. cbn [snd] in H.
+    match type of H with map_res _ (snd (ins rest na ?c0)) = _ =>
+      destruct (snd (ins rest na c0)) as [p'|e] eqn:Hs; [|discriminate];
+      assert (Hc : nonempty_names c0) end.
+    { intros n Hn. rewrite names_unfold in Hn. cbn in Hn. destruct Hn as [<-|[]].
+      destruct nm; [discriminate|discriminate]. }
+    constructor; [destruct nm; [discriminate|discriminate]|]. eapply IH; eauto.
+  - destruct (nth_error (tkids t) i) as [k|] eqn:Hk; [|discriminate]. cbn [snd] in H.
+    destruct (snd (ins rest na k)) as [p'|e] eqn:Hs; [|discriminate].
+    assert (Hi : In i (find_idx nm 0 (tkids t))) by (rewrite F; now left).
+    apply find_idx_spec in Hi as [_ (k0 & Hk0 & Hnm)]. rewrite Nat.sub_0_r, Hk in Hk0. inversion Hk0; subst k0.
+    assert (Hkn : incl (names k) (names t)).
+    { destruct t as [g n a ks]. cbn [tkids] in *. intros x Hx. rewrite names_unfold. right.
+      apply in_flat_map. exists k. split; [eapply nth_error_In; eauto|exact Hx]. }
+    constructor.
+    + rewrite <- Hnm. apply Hne. apply Hkn. apply tname_in_names.
+    + eapply (IH k); eauto. intros n Hn. apply Hne. now apply Hkn.
+Qed.
+
+Lemma add_path_nonempty t tsep path sep na t' p :
+  nonempty_names t -> add_path_to_tree t tsep path sep true na = (t', Ret p) ->
+  nonempty_names t' /\ tname t' = tname t /\ path <> [] /\
+  exists rest, branch_of path sep = tname t :: rest /\ Forall (fun x => x <> []) rest.
+Proof.
+  intros Hne H. destruct (add_path_inv _ _ _ _ _ _ _ H) as (rest & Hb & Hok & ->).
+  pose proof (ins_ok_nonempty _ _ _ _ Hne Hok) as Hr.
+  split; [|split; [|split]].
+  - intros n Hn. rewrite names_set_attrs in Hn. apply ins_names_incl in Hn as [Hn|Hn]; [now apply Hne|].
+    rewrite Forall_forall in Hr. now apply Hr.
+  - now rewrite tname_upd_at_attrs, ins_tname.
+  - intros ->. unfold add_path_to_tree in H. cbn in H. discriminate.
+  - eauto.
+Qed.
+
+(* the boolean test of Spec/PC05.v for one parsed path, with the root name as a parameter *)
+Definition path_ok_b (root : str) (p : path) : bool :=
+  negb (match p with [] => true | r :: _ => negb (str_eqb r root) end)
+  && forallb (fun c => negb (is_nil c)) p.
+
+Lemma path_ok_b_iff root p :
+  path_ok_b root p = true <-> exists rest, p = root :: rest /\ Forall (fun x => x <> []) (root :: rest).
+Proof.
+  unfold path_ok_b. destruct p as [|r rest]; cbn; [split; [discriminate|intros (x & H & _); discriminate]|].
+  rewrite negb_involutive, !andb_true_iff, str_eqb_eq, negb_true_iff, forallb_forall. split.
+  - intros (-> & Hr & Hf). exists rest. split; [reflexivity|]. constructor.
+    + intros ->. discriminate.
+    + apply Forall_forall. intros x Hx E. subst. specialize (Hf [] Hx). discriminate.
+  - intros (rest' & E & Hf). inversion E; subst. inversion Hf as [|? ? H1 H2]; subst.
+    split; [reflexivity|]. split; [destruct root; [congruence|reflexivity]|].
+    intros x Hx. rewrite Forall_forall in H2. specialize (H2 x Hx). destruct x; [congruence|reflexivity].
+Qed.
+
+Lemma spec_parse_ok_agree c root s :
+  path_ok_b root (spec_parse s [c]) = true -> spec_parse s [c] = branch_of s [c] /\ s <> [].
+Proof.
+  intros H. destruct (lstrip s [c]) as [|ch r] eqn:E.
+  - destruct (parse_empty c s E) as [E1 _]. rewrite E1 in H. discriminate.
+  - split; [apply parse_agree; congruence|]. intros ->. discriminate.
+Qed.
+
+Lemma branch_ok_agree c root s rest :
+  root <> [] -> branch_of s [c] = root :: rest -> spec_parse s [c] = branch_of s [c].
+Proof.
+  intros Hr Hb. destruct (lstrip s [c]) as [|ch r] eqn:E.
+  - destruct (parse_empty c s E) as [_ E2]. rewrite E2 in Hb. inversion Hb. congruence.
+  - apply parse_agree. congruence.
+Qed.
+
+(* A1: an accepted loop: every row reads the same under both parsers and passes the spec's test *)
+Lemma add_rows_accepted_ok c tsep : forall rows t acc t' ps,
+  nonempty_names t -> add_rows t tsep [c] true rows acc = (t', Ret ps) ->
+  nonempty_names t' /\ tname t' = tname t /\
+  forall r, In r rows -> spec_parse (fst r) [c] = branch_of (fst r) [c]
+                         /\ path_ok_b (tname t) (spec_parse (fst r) [c]) = true.
+Proof.
+  induction rows as [|[path na] rows IH]; intros t acc t' ps Hne H; cbn [add_rows] in H.
+  - inversion H; subst. split; [exact Hne|]. split; [reflexivity|]. intros r0 [].
+  - destruct (add_path_to_tree t tsep path [c] true na) as [t1 [p|e]] eqn:Ha; [|discriminate].
+    destruct (add_path_nonempty _ _ _ _ _ _ _ Hne Ha) as (Hne1 & Hn1 & Hp & rest & Hb & Hr).
+    destruct (IH _ _ _ _ Hne1 H) as (Hne' & Hn' & Hrows). split; [exact Hne'|]. split; [congruence|].
+    assert (Hroot : tname t <> []) by (apply Hne; apply tname_in_names).
+    intros r [<-|Hin]; cbn [fst].
+    + pose proof (branch_ok_agree c _ _ _ Hroot Hb) as Eq. split; [exact Eq|].
+      rewrite Eq, Hb. apply path_ok_b_iff. exists rest. split; [reflexivity|]. now constructor.
+    + rewrite <- Hn1. now apply Hrows.
+Qed.
+
+(* A2: rows passing the spec's test are accepted *)
+Lemma add_rows_ok_accepted c tsep : forall rows t acc,
+  sib_ok t -> (forall r, In r rows -> path_ok_b (tname t) (spec_parse (fst r) [c]) = true) ->
+  exists t' ps, add_rows t tsep [c] true rows acc = (t', Ret ps).
+Proof.
+  induction rows as [|[path na] rows IH]; intros t acc Hw Hok; cbn [add_rows]; [eauto|].
+  pose proof (Hok (path, na) (or_introl eq_refl)) as H0. cbn [fst] in H0.
+  destruct (spec_parse_ok_agree c _ _ H0) as [Eq Hp]. rewrite Eq in H0.
+  apply path_ok_b_iff in H0 as (rest & Hb & Hf). inversion Hf as [|? ? _ Hrest]; subst.
+  destruct (add_path_accepts t tsep path [c] na rest Hw Hp Hb Hrest) as (t1 & p & Ha). rewrite Ha.
+  destruct (add_path_reuses _ _ _ _ _ _ _ Ha) as (_ & _ & Hs).
+  destruct (add_path_inv _ _ _ _ _ _ _ Ha) as (rest' & _ & _ & E).
+  assert (Hn : tname t1 = tname t) by (subst t1; now rewrite tname_upd_at_attrs, ins_tname).
+  apply IH; [now apply Hs|]. intros r Hr. rewrite Hn. apply Hok. now right.
+Qed.
+
+(* ======================================================================================== *)
+(* 26. the clauses of prop_C05 for an accepted loop, in the vocabulary of Spec/PC05.v          *)
+
+Lemma add_rows_fresh_tag tsep sep : forall rows t acc t' ps q s',
+  add_rows t tsep sep true rows acc = (t', Ret ps) ->
+  subtree_at t q = None -> subtree_at t' q = Some s' -> ttag s' = None.
+Proof.
+  induction rows as [|[path na] rows IH]; intros t acc t' ps q s' H Hn Hs; cbn [add_rows] in H.
+  - inversion H; subst. congruence.
+  - destruct (add_path_to_tree t tsep path sep true na) as [t1 [p|e]] eqn:Ha; [|discriminate].
+    destruct (subtree_at t1 q) as [s1|] eqn:Hq1.
+    + destruct (add_path_reuses _ _ _ _ _ _ _ Ha) as (_ & Hf & _).
+      destruct (add_rows_positions _ _ _ _ _ _ _ H q s1 Hq1) as (s2 & Hs2 & _ & Ht).
+      rewrite Hs in Hs2. inversion Hs2; subst. rewrite Ht. eapply Hf; eauto.
+    + eapply IH; eauto.
+Qed.
+
+Lemma add_rows_rets tsep sep : forall rows t acc t' ps,
+  add_rows t tsep sep true rows acc = (t', Ret ps) ->
+  exists qs, ps = rev acc ++ qs /\
+             Forall2 (fun r q => names_along t' q = branch_of (fst r) sep) rows qs.
+Proof.
+  induction rows as [|[path na] rows IH]; intros t acc t' ps H; cbn [add_rows] in H.
+  - inversion H; subst. exists []. rewrite app_nil_r. split; [reflexivity|constructor].
+  - destruct (add_path_to_tree t tsep path sep true na) as [t1 [p|e]] eqn:Ha; [|discriminate].
+    destruct (IH _ _ _ _ H) as (qs & -> & Hf). exists (p :: qs). split.
+    + cbn [rev]. now rewrite <- app_assoc.
+    + constructor; [|exact Hf]. cbn [fst].
+      destruct (add_path_positions _ _ _ _ _ _ _ Ha) as (_ & Hn & sp & Hsp).
+      destruct (add_rows_positions _ _ _ _ _ _ _ H p sp Hsp) as (s2 & _ & Hn2 & _). congruence.
+Qed.
+
+Lemma nodup_path_NoDup l : nodup_path l = true -> NoDup l.
+Proof.
+  induction l as [|x l IH]; intros H; [constructor|]. cbn in H. apply andb_true_iff in H as [H1 H2].
+  constructor; [|now apply IH]. apply negb_true_iff in H1. now apply mem_path_false.
+Qed.
+
+Lemma NoDup_paths_sib_ok : forall t pfx, NoDup (paths_from pfx t) -> sib_ok t.
+Proof.
+  induction t as [g n a ks IH] using tree_ind'. intros pfx Hn. rewrite paths_from_unfold in Hn.
+  inversion Hn as [|? ? _ Hf]; subst. clear Hn. set (p0 := pfx ++ [n]) in *.
+  assert (G : NoDup (map tname ks) /\ Forall sib_ok ks).
+  { induction ks as [|k ks IHk]; [split; constructor|].
+    inversion IH as [|? ? Hk Hks]; subst. cbn [flat_map] in Hf.
+    destruct (NoDup_app_inv _ _ Hf) as [Hfk Hfr]. destruct (IHk Hks Hfr) as [H1 H2]. split.
+    - cbn. constructor; [|exact H1]. intros Hin. apply in_map_iff in Hin as (k' & E & Hk').
+      apply (NoDup_app_disjoint _ _ (p0 ++ [tname k]) Hf); [apply paths_from_head|].
+      apply in_flat_map. exists k'. split; [exact Hk'|]. rewrite <- E. apply paths_from_head.
+    - constructor; [|exact H2]. eapply Hk; eauto. }
+  destruct G. now constructor.
+Qed.
+
+Lemma list_eqb_refl {A} (e : A -> A -> bool) l : (forall x, e x x = true) -> list_eqb e l l = true.
+Proof. intros H. induction l as [|x l IH]; [reflexivity|]. cbn. now rewrite H, IH. Qed.
+
+Lemma opt_tag_eqb_refl g : opt_tag_eqb g g = true.
+Proof. destruct g; cbn; [apply Nat.eqb_refl|reflexivity]. Qed.
+
+Lemma pos_eqb_refl (q : pos) : list_eqb Nat.eqb q q = true.
+Proof. apply list_eqb_refl. apply Nat.eqb_refl. Qed.
+
+Lemma in_pre_position t s : In s (pre t) -> exists q, subtree_at t q = Some s.
+Proof.
+  intros H. pose proof (lockstep t []) as L. revert H. induction L as [|p x ps xs Hpx _ IH]; intros H; [contradiction|].
+  destruct H as [<-|H]; [|now apply IH]. destruct Hpx as (q & Hq & _). eauto.
+Qed.
+
+Lemma same_tree_refl t : attrs_wf t -> same_tree t t = true.
+Proof.
+  intros Hwf. unfold same_tree.
+  rewrite (list_eqb_refl path_eqb _ path_eqb_refl), (list_eqb_refl opt_tag_eqb _ opt_tag_eqb_refl). cbn.
+  assert (G : forall l, (forall s, In s l -> NoDup (map fst (tattrs s))) ->
+                forallb2 (fun x y => attrs_equiv (tattrs x) (tattrs y)) l l = true).
+  { induction l as [|x l IH]; intros H; [reflexivity|]. cbn.
+    rewrite attrs_equiv_true; [|apply H; now left|apply H; now left|apply aeq_refl].
+    apply IH. intros s Hs. apply H. now right. }
+  apply G. intros s Hs. destruct (in_pre_position t s Hs) as [q Hq]. eapply Hwf; eauto.
+Qed.
+
+(* expected tag / base attributes of the specification, with the base tree as a parameter *)
+Definition etag (b : tree) (p : path) : option nat :=
+  match assoc_path p (combine (paths b) (map ttag (pre b))) with Some g => g | None => None end.
+Definition battrs (b : tree) (p : path) : attrs :=
+  match assoc_path p (combine (paths b) (map tattrs (pre b))) with Some a => a | None => [] end.
+Definition eattrs (b : tree) (pr : list (path * attrs)) (p : path) : attrs :=
+  fold_left (fun a r => if path_eqb (fst r) p then set_attrs a (snd r) else a) pr (battrs b p).
+Definition sprows (c : N) (rows : list row) : list (path * attrs) :=
+  map (fun r => (spec_parse (fst r) [c], snd r)) rows.
+
+Lemma fold_left_map {A B C} (f : A -> B -> A) (g : C -> B) l : forall a,
+  fold_left f (map g l) a = fold_left (fun a x => f a (g x)) l a.
+Proof. induction l as [|x l IH]; intros a; [reflexivity|]. cbn. apply IH. Qed.
+
+Lemma fold_left_ext_in {A B} (f g : A -> B -> A) l : (forall a x, In x l -> f a x = g a x) ->
+  forall a, fold_left f l a = fold_left g l a.
+Proof.
+  induction l as [|x l IH]; intros H a; [reflexivity|]. cbn. rewrite (H a x (or_introl eq_refl)).
+  apply IH. intros a' y Hy. apply H. now right.
+Qed.
+
+(* the look-ups of the specification in the base tree, for a position of the result *)
+Lemma base_lookup {C} (f : tree -> C) (d : C) tsep sep rows b acc t' ps q s' :
+  sib_ok b -> NoDup (paths b) -> add_rows b tsep sep true rows acc = (t', Ret ps) ->
+  subtree_at t' q = Some s' ->
+  match assoc_path (names_along t' q) (combine (paths b) (map f (pre b))) with Some v => v | None => d end
+  = match subtree_at b q with Some s => f s | None => d end.
+Proof.
+  intros Hw Hn H Hq. destruct (subtree_at b q) as [s|] eqn:Hb.
+  - destruct (add_rows_positions _ _ _ _ _ _ _ H q s Hb) as (s2 & _ & Hn2 & _).
+    now rewrite Hn2, (assoc_path_node f b q s Hw Hn Hb).
+  - rewrite assoc_path_None; [reflexivity|].
+    rewrite combine_fst_eq by (rewrite map_length; apply paths_pre_length).
+    intros Hin. destruct (in_paths_valid b [] _ Hin) as (q0 & s0 & Hq0 & E). cbn [app] in E.
+    destruct (add_rows_positions _ _ _ _ _ _ _ H q0 s0 Hq0) as (s2 & Hs2 & Hn2 & _).
+    assert (q = q0).
+    { eapply (names_along_inj q t' q0); eauto; [eapply add_rows_sib_ok; eauto|congruence]. }
+    subst q0. congruence.
+Qed.
+
+Lemma core_accepted c tsep b rows t' ps :
+  sib_ok b -> attrs_wf b -> nonempty_names b -> NoDup (paths b) ->
+  add_rows b tsep [c] true rows [] = (t', Ret ps) ->
+  let pr := sprows c rows in
+  let all := dedup [] (paths b ++ closure (map fst pr)) in
+  paths t' = trie_pre (max_len all) all [tname b]
+  /\ map ttag (pre t') = map (etag b) (paths t')
+  /\ forallb2 (fun p nd => attrs_equiv (tattrs nd) (eattrs b pr p)) (paths t') (pre t') = true
+  /\ forallb2 (fun r q => path_eqb (names_along t' q) (fst r)) pr ps = true
+  /\ forallb (path_ok_b (tname b)) (map fst pr) = true
+  /\ (forall q s', subtree_at t' q = Some s' -> subtree_at b q = None -> ttag s' = None).
+Proof.
+  intros Hw Hwf Hne Hnd H pr all.
+  destruct (add_rows_accepted_ok c tsep _ _ _ _ _ Hne H) as (_ & _ & Hrows).
+  assert (Hbr : map fst pr = branches [c] rows).
+  { unfold pr, sprows, branches. rewrite map_map. apply map_ext_in. intros r Hr. cbn [fst]. now apply Hrows. }
+  split; [|split; [|split; [|split; [|split]]]].
+  - unfold all. rewrite Hbr. eapply add_rows_extends; eauto.
+  - apply positions_map_eq. intros q s' Hq. unfold etag.
+    rewrite (base_lookup ttag None _ _ _ _ _ _ _ q s' Hw Hnd H Hq).
+    destruct (subtree_at b q) as [s|] eqn:Hb.
+    + destruct (add_rows_positions _ _ _ _ _ _ _ H q s Hb) as (s2 & Hs2 & _ & Ht). congruence.
+    + eapply add_rows_fresh_tag; eauto.
+  - apply positions_forallb2. intros q s' Hq.
+    assert (Ebase : battrs b (names_along t' q) = attrs_at b q).
+    { unfold battrs, attrs_at. apply (base_lookup tattrs [] _ _ _ _ _ _ _ q s' Hw Hnd H Hq). }
+    assert (Efold : eattrs b pr (names_along t' q) = upd_for [c] rows (names_along t' q) (attrs_at b q)).
+    { unfold eattrs, upd_for, pr, sprows. rewrite Ebase, fold_left_map. apply fold_left_ext_in.
+      intros a r Hr. cbn [fst snd]. unfold step_attrs. now rewrite (proj1 (Hrows r Hr)). }
+    rewrite Efold. apply attrs_equiv_true.
+    + eapply add_rows_attrs_wf; eauto.
+    + apply upd_for_keys. unfold attrs_at. destruct (subtree_at b q) as [s|] eqn:Hb; [eapply Hwf; eauto|constructor].
+    + eapply add_rows_attrs; eauto.
+  - destruct (add_rows_rets _ _ _ _ _ _ _ H) as (qs & -> & Hf). cbn [rev app].
+    unfold pr, sprows. clear - Hf Hrows. induction Hf as [|r q rows qs Hrq _ IH]; [reflexivity|].
+    cbn [map forallb2 fst]. rewrite (proj1 (Hrows r (or_introl eq_refl))), Hrq, path_eqb_refl. cbn.
+    apply IH. intros r' Hr'. apply Hrows. now right.
+  - apply forallb_forall. intros p Hp. unfold pr, sprows in Hp. rewrite map_map in Hp.
+    apply in_map_iff in Hp as (r & <- & Hr). cbn [fst]. now apply Hrows.
+  - intros q s' Hq Hb. eapply add_rows_fresh_tag; eauto.
+Qed.
+
+(* ======================================================================================== *)
+(* 27. prop_C05 holds of the model: the in-place entry points (duplicates allowed)             *)
+
+Lemma guards_facts k i :
+  guards k i = true ->
+  keys_ok k i = true /\ NoDup (paths (base k i)) /\ nonempty_names (base k i).
+Proof.
+  unfold guards. rewrite !andb_true_iff. intros ((((_ & Hk) & Hn) & Hne) & _).
+  split; [exact Hk|]. split; [now apply nodup_path_NoDup|].
+  intros n Hin. rewrite forallb_forall in Hne. specialize (Hne n Hin). destruct n; [discriminate|discriminate].
+Qed.
+
+Lemma add_kind_prows k i c :
+  (forall a, spec_filter k (i_pcol i) a = a) -> i_sep i = [c] -> prows k i = sprows c (i_rows i).
+Proof.
+  intros Hf Hs. unfold prows, sprows. rewrite Hs. apply map_ext. intros r. now rewrite Hf.
+Qed.
+
+Lemma add_kind_structure k i c tsep t' ps :
+  is_new k = false -> prows k i = sprows c (i_rows i) ->
+  sib_ok (i_tree i) -> attrs_wf (i_tree i) -> nonempty_names (i_tree i) -> NoDup (paths (i_tree i)) ->
+  add_rows (i_tree i) tsep [c] true (i_rows i) [] = (t', Ret ps) ->
+  list_eqb path_eqb (paths t') (expected_paths k i) = true
+  /\ list_eqb opt_tag_eqb (map ttag (pre t')) (map (expected_tag k i) (paths t')) = true
+  /\ forallb2 (fun p nd => attrs_equiv (tattrs nd) (expected_attrs k i p)) (paths t') (pre t') = true
+  /\ forallb (path_ok k i) (map fst (prows k i)) = true
+  /\ forallb2 (fun r q => path_eqb (names_along t' q) (fst r)) (prows k i) ps = true.
+Proof.
+  intros Hnew Hpr Hw Hwf Hne Hnd H.
+  destruct (core_accepted c tsep _ _ _ _ Hw Hwf Hne Hnd H) as (F1 & F2 & F3 & F4 & F5 & _).
+  unfold expected_paths, all_paths, expected_tag, expected_attrs, base_attrs, path_ok, wrong_root, base, root_name.
+  rewrite Hnew, Hpr. split; [|split; [|split; [|split]]].
+  - rewrite F1. apply list_eqb_refl. apply path_eqb_refl.
+  - rewrite F2. apply list_eqb_refl. apply opt_tag_eqb_refl.
+  - exact F3.
+  - exact F5.
+  - exact F4.
+Qed.
+
+(* a first row whose root is wrong (in the specification's reading) leaves the tree untouched *)
+Lemma wrong_root_unchanged c b tsep s dup na :
+  nonempty_names b ->
+  match spec_parse s [c] with [] => true | r :: _ => negb (str_eqb r (tname b)) end = true ->
+  exists e, add_path_to_tree b tsep s [c] dup na = (b, Raise e).
+Proof.
+  intros Hne Hwr. destruct s as [|ch s0] eqn:Es.
+  - exists ValueError. reflexivity.
+  - rewrite <- Es in *. assert (Hs : s <> []) by (rewrite Es; discriminate).
+    exists TreeError. apply add_path_wrong_root; [exact Hs|].
+    assert (Hroot : tname b <> []) by (apply Hne; apply tname_in_names).
+    destruct (lstrip s [c]) as [|x r] eqn:E.
+    + destruct (parse_empty c s E) as [_ E2]. rewrite E2. cbn. congruence.
+    + rewrite (parse_agree c s) in Hwr by congruence.
+      pose proof (branch_of_nonempty s [c]) as Hb. destruct (branch_of s [c]) as [|r0 l]; [congruence|].
+      cbn. intros ->. rewrite str_eqb_refl in Hwr. discriminate.
+Qed.
+
+Lemma add_rows_nil_acc t tsep sep dup rows acc :
+  fst (add_rows t tsep sep dup rows acc) = fst (add_rows t tsep sep dup rows []) /\
+  (forall e, snd (add_rows t tsep sep dup rows acc) = Raise e <-> snd (add_rows t tsep sep dup rows []) = Raise e).
+Proof.
+  revert t acc. induction rows as [|[path na] rows IH]; intros t acc; cbn [add_rows].
+  - cbn. split; [reflexivity|]. intros e. split; discriminate.
+  - destruct (add_path_to_tree t tsep path sep dup na) as [t1 [p|e]]; [|cbn; split; [reflexivity|tauto]].
+    destruct (IH t1 (p :: acc)) as [H1 H2]. destruct (IH t1 [p]) as [H3 H4].
+    split; [congruence|]. intros e. rewrite H2, H4. tauto.
+Qed.
+
+Theorem model_satisfies_KAddPath i c :
+  i_sep i = [c] -> i_dup i = true -> attrs_wf (i_tree i) ->
+  prop_C05 KAddPath i (run KAddPath i) = true.
+Proof.
+  intros Hsep Hdup Hwf. unfold prop_C05. cbn [is_byname]. unfold prop_paths.
+  destruct (guards KAddPath i) eqn:G; [cbn [negb]|reflexivity].
+  destruct (guards_facts _ _ G) as (Hk & Hnd & Hne). cbn [base is_new] in Hnd, Hne.
+  pose proof (NoDup_paths_sib_ok _ [] Hnd) as Hw.
+  pose proof (add_kind_prows KAddPath i c (fun a => eq_refl) Hsep) as Hpr.
+  unfold run. rewrite Hsep. cbn [is_nil]. change (forallb (row_keys_ok []) (i_rows i)) with (keys_ok KAddPath i).
+  rewrite Hk, Hdup.
+  destruct (add_rows (i_tree i) (i_tsep i) [c] true (i_rows i) []) as [t1 [ps|e]] eqn:H; cbn [out_add o_res o_tree o_rets].
+  - destruct (add_kind_structure KAddPath i c _ _ _ eq_refl Hpr Hw Hwf Hne Hnd H) as (C1 & C2 & C3 & C4 & C5).
+    rewrite C1, C2, C3. unfold rets_ok. cbn [o_rets]. rewrite C5. try rewrite Hdup. cbn [orb andb].
+    rewrite andb_true_r. unfold expected_accept, no_call. destruct (i_rows i) as [|r0 rows] eqn:Er; [reflexivity|].
+    cbn [is_nil negb orb andb is_frame]. rewrite C4, Hdup. cbn. rewrite andb_true_r.
+    unfold root_name. cbn [is_new]. destruct (tname (i_tree i)) eqn:En; [|reflexivity].
+    exfalso. apply (Hne []); [|reflexivity]. rewrite <- En. apply tname_in_names.
+  - assert (Hrej : expected_accept KAddPath i = false).
+    { destruct (expected_accept KAddPath i) eqn:Ea; [|reflexivity]. exfalso.
+      unfold expected_accept, no_call in Ea. destruct (i_rows i) as [|r0 rows] eqn:Er.
+      - cbn in H. discriminate.
+      - cbn [is_nil negb orb is_frame] in Ea. rewrite !andb_true_iff in Ea. destruct Ea as ((((_ & _) & Hok) & _) & _).
+        destruct (add_rows_ok_accepted c (i_tsep i) (r0 :: rows) (i_tree i) [] Hw) as (t' & ps & Hacc).
+        + intros r Hr. rewrite forallb_forall in Hok. rewrite Hpr in Hok.
+          apply (Hok (spec_parse (fst r) [c])). unfold sprows. rewrite map_map. apply in_map_iff. exists r. auto.
+        + rewrite Hacc in H. discriminate. }
+    rewrite Hrej. cbn [negb andb is_new].
+    destruct (refused_at_once KAddPath i) eqn:Er; [|reflexivity].
+    unfold refused_at_once in Er. cbn [is_frame andb orb] in Er. rewrite orb_false_r in Er.
+    destruct (i_rows i) as [|[s0 na0] rows] eqn:Erows.
+    + cbn in H. discriminate.
+    + cbn [is_nil orb] in Er. rewrite Hpr in Er. cbn [sprows map fst] in Er.
+      unfold wrong_root, root_name in Er. cbn [is_new] in Er.
+      destruct (wrong_root_unchanged c (i_tree i) (i_tsep i) s0 true na0 Hne Er) as [e0 He0].
+      cbn [add_rows] in H. rewrite He0 in H. inversion H; subst. now apply same_tree_refl.
+Qed.
+
+(* the part of the refusal argument shared by the entry points that loop over add_path_to_tree *)
+Lemma add_rows_rejected k i c r0 rows t1 e :
+  is_new k = false -> is_frame k = false -> prows k i = sprows c (r0 :: rows) ->
+  sib_ok (i_tree i) -> attrs_wf (i_tree i) -> nonempty_names (i_tree i) ->
+  add_rows (i_tree i) (i_tsep i) [c] true (r0 :: rows) [] = (t1, Raise e) ->
+  forallb (path_ok k i) (map fst (prows k i)) = false
+  /\ (match prows k i with (p, _) :: _ => wrong_root k i p | [] => true end = true ->
+      same_tree t1 (i_tree i) = true).
+Proof.
+  intros Hnew Hfr Hpr Hw Hwf Hne H. split.
+  - destruct (forallb (path_ok k i) (map fst (prows k i))) eqn:Hok; [|reflexivity]. exfalso.
+    destruct (add_rows_ok_accepted c (i_tsep i) (r0 :: rows) (i_tree i) [] Hw) as (t' & ps & Hacc).
+    + intros r Hr. rewrite forallb_forall in Hok. rewrite Hpr in Hok.
+      specialize (Hok (spec_parse (fst r) [c])). unfold path_ok, wrong_root, root_name in Hok. rewrite Hnew in Hok.
+      apply Hok. unfold sprows. rewrite map_map. apply in_map_iff. exists r. auto.
+    + rewrite Hacc in H. discriminate.
+  - rewrite Hpr. destruct r0 as [s0 na0]. cbn [sprows map fst]. unfold wrong_root, root_name. rewrite Hnew.
+    intros Er. destruct (wrong_root_unchanged c (i_tree i) (i_tsep i) s0 true na0 Hne Er) as [e0 He0].
+    cbn [add_rows] in H. rewrite He0 in H. inversion H; subst. now apply same_tree_refl.
+Qed.
+
+Theorem model_satisfies_KAddDict i c :
+  i_sep i = [c] -> i_dup i = true -> attrs_wf (i_tree i) ->
+  prop_C05 KAddDict i (run KAddDict i) = true.
+Proof.
+  intros Hsep Hdup Hwf. unfold prop_C05. cbn [is_byname]. unfold prop_paths.
+  destruct (guards KAddDict i) eqn:G; [cbn [negb]|reflexivity].
+  destruct (guards_facts _ _ G) as (Hk & Hnd & Hne). cbn [base is_new] in Hnd, Hne.
+  pose proof (NoDup_paths_sib_ok _ [] Hnd) as Hw.
+  pose proof (add_kind_prows KAddDict i c (fun a => eq_refl) Hsep) as Hpr.
+  unfold run. rewrite Hsep. cbn [is_nil]. change (forallb (row_keys_ok []) (i_rows i)) with (keys_ok KAddDict i).
+  rewrite Hk, Hdup. unfold add_dict_to_tree_by_path.
+  destruct (i_rows i) as [|r0 rows] eqn:Er.
+  - cbn [out_add o_res o_tree]. unfold expected_accept, no_call, refused_at_once. rewrite Er. cbn.
+    now apply same_tree_refl.
+  - rewrite <- Er in *.
+    destruct (add_rows (i_tree i) (i_tsep i) [c] true (i_rows i) []) as [t1 [ps|e]] eqn:H; cbn [out_add o_res o_tree o_rets].
+    + destruct (add_kind_structure KAddDict i c _ _ _ eq_refl Hpr Hw Hwf Hne Hnd H) as (C1 & C2 & C3 & C4 & C5).
+      rewrite C1, C2, C3. unfold rets_ok. cbn [o_rets list_eqb Nat.eqb andb]. try rewrite Hdup. cbn [orb andb].
+      rewrite andb_true_r. unfold expected_accept, no_call. rewrite Er at 1. cbn [is_nil negb orb andb is_frame].
+      rewrite C4. try rewrite Hdup. cbn [orb andb]. rewrite !andb_true_r.
+      unfold root_name. cbn [is_new]. destruct (tname (i_tree i)) eqn:En; [|reflexivity].
+      exfalso. apply (Hne []); [|reflexivity]. rewrite <- En. apply tname_in_names.
+    + rewrite Er in H, Hpr.
+      destruct (add_rows_rejected KAddDict i c r0 rows t1 e eq_refl eq_refl Hpr Hw Hwf Hne H) as [R1 R2].
+      unfold expected_accept, no_call, refused_at_once. rewrite Er. cbn [is_nil negb orb andb is_frame].
+      rewrite R1. rewrite !andb_false_r. cbn [negb andb is_new].
+      destruct (match prows KAddDict i with (p, _) :: _ => wrong_root KAddDict i p | [] => true end) eqn:Ew; [|reflexivity].
+      now apply R2.
+Qed.
+
+(* ======================================================================================== *)
+(* 28. list_to_tree: the de-duplication of the path strings is unobservable                    *)
+
+Lemma ins_existing na : forall rest t q s,
+  sib_ok t -> subtree_at t q = Some s -> names_along t q = tname t :: rest ->
+  ins rest na t = (t, Ret q).
+Proof.
+  induction rest as [|nm rest IH]; intros t q s Hw Hq Hn.
+  - destruct q as [|i q]; [reflexivity|]. destruct (names_along_len2 _ _ _ _ Hq) as (x & y & l & E).
+    rewrite E in Hn. discriminate.
+  - destruct q as [|i q]; [cbn in Hn; discriminate|].
+    cbn [subtree_at names_along] in Hq, Hn. destruct (nth_error (tkids t) i) as [k|] eqn:Hk; [|discriminate].
+    injection Hn as Hn'. destruct (names_along_hd k q) as [l El]. rewrite El in Hn'. injection Hn' as Hname Hl.
+    pose proof (sib_ok_kids _ Hw) as [Hnd Hwk].
+    pose proof (find_idx_complete nm 0 _ i k Hk Hname) as Hin. cbn [Nat.add] in Hin.
+    pose proof (find_idx_nodup nm 0 _ Hnd) as Hlen.
+    cbn [ins]. destruct (find_idx nm 0 (tkids t)) as [|i0 [|i1 r]]; [contradiction| |cbn in Hlen; lia].
+    destruct Hin as [->|[]]. rewrite Hk.
+    rewrite Forall_forall in Hwk.
+    rewrite (IH k q s (Hwk k (nth_error_In _ _ Hk)) Hq); [|rewrite El, Hl; reflexivity].
+    cbn [fst snd map_res]. f_equal. apply upd_at_id. cbn [subtree_at]. now rewrite Hk.
+Qed.
+
+Lemma add_path_existing t tsep s sep q sx :
+  sib_ok t -> s <> [] -> subtree_at t q = Some sx -> names_along t q = branch_of s sep ->
+  add_path_to_tree t tsep s sep true [] = (t, Ret q).
+Proof.
+  intros Hw Hs Hq Hn. unfold add_path_to_tree. destruct s; [congruence|]. cbn [is_nil].
+  rewrite <- Hn. destruct (names_along_hd t q) as [rest E]. rewrite E, str_eqb_refl. cbn [negb].
+  rewrite grow_ins_root, (ins_existing [] rest t q sx Hw Hq E). f_equal.
+  erewrite upd_at_ext_at; [apply (upd_at_id _ _ _ Hq)|exact Hq|]. destruct sx; reflexivity.
+Qed.
+
+Definition collapse (r : tree * res (list pos)) : res tree :=
+  match r with (t, Ret _) => Ret t | (_, Raise e) => Raise e end.
+
+Lemma In_existsb_str x l : existsb (str_eqb x) l = true <-> In x l.
+Proof.
+  rewrite existsb_exists. split.
+  - intros (y & Hy & E). apply str_eqb_eq in E. now subst.
+  - intros H. exists x. split; [exact H|apply str_eqb_refl].
+Qed.
+
+Lemma add_rows_dedup tsep sep : forall L seen t acc1 acc2,
+  sib_ok t ->
+  (forall s, In s seen -> s <> [] /\ exists q sx, subtree_at t q = Some sx /\ names_along t q = branch_of s sep) ->
+  collapse (add_rows t tsep sep true (map (fun p => (p, [])) (dedup_str seen L)) acc1)
+  = collapse (add_rows t tsep sep true (map (fun p => (p, [])) L) acc2).
+Proof.
+  induction L as [|x L IH]; intros seen t acc1 acc2 Hw Hseen; [reflexivity|].
+  cbn [dedup_str map add_rows]. destruct (existsb (str_eqb x) seen) eqn:E.
+  - apply In_existsb_str in E. destruct (Hseen x E) as (Hx & q & sx & Hq & Hn).
+    rewrite (add_path_existing t tsep x sep q sx Hw Hx Hq Hn). now apply IH.
+  - cbn [map add_rows]. destruct (add_path_to_tree t tsep x sep true []) as [t1 [p|e]] eqn:Ha; [|reflexivity].
+    destruct (add_path_positions _ _ _ _ _ _ _ Ha) as (Hkeep & Hnp & sp & Hsp).
+    destruct (add_path_reuses _ _ _ _ _ _ _ Ha) as (_ & _ & Hs).
+    apply IH; [now apply Hs|]. intros s [<-|Hin].
+    + split; [|eauto]. intros ->. unfold add_path_to_tree in Ha. cbn in Ha. discriminate.
+    + destruct (Hseen s Hin) as (Hne & q & sx & Hq & Hn). split; [exact Hne|].
+      destruct (Hkeep q sx Hq) as (s' & Hs' & Hn' & _). exists q, s'. split; [exact Hs'|congruence].
+Qed.
+
+Lemma list_to_tree_full p0 ps sep :
+  let r := hd [] (split (lstrip p0 sep) sep) in
+  list_to_tree (p0 :: ps) sep true
+  = if is_nil r then Raise TreeError
+    else collapse (add_rows (T None r [] []) sep sep true (map (fun p => (p, [])) (p0 :: ps)) []).
+Proof.
+  intros r. unfold list_to_tree. fold r. destruct (is_nil r); [reflexivity|].
+  rewrite <- (add_rows_dedup sep sep (p0 :: ps) [] (T None r [] []) [] []).
+  - unfold collapse. destruct (add_rows _ _ _ _ _ _) as [t [x|e]]; reflexivity.
+  - constructor; constructor.
+  - intros s [].
+Qed.
+
+Lemma hd_splitc_rstrip c m : hd [] (splitc c (rstrip m [c])) = hd [] (splitc c m).
+Proof.
+  unfold rstrip. rewrite <- (rev_involutive m) at 2. generalize (rev m) as u. intros u.
+  induction u as [|ch u IH]; [reflexivity|]. rewrite lstrip_cons. destruct (N.eqb c ch) eqn:E; [|reflexivity].
+  apply N.eqb_eq in E. subst ch. cbn [rev]. rewrite splitc_snoc_sep, IH.
+  pose proof (splitc_nonempty c (rev u)). destruct (splitc c (rev u)); [congruence|reflexivity].
+Qed.
+
+(* the root name inferred by the constructors is the head of the specification's reading *)
+Lemma root_inference c p0 :
+  hd [] (split (lstrip p0 [c]) [c]) = hd [] (spec_parse p0 [c])
+  /\ hd [] (branch_of p0 [c]) = hd [] (spec_parse p0 [c]).
+Proof.
+  destruct (lstrip p0 [c]) as [|ch r] eqn:E.
+  - destruct (parse_empty c p0 E) as [E1 E2]. rewrite E1, E2. split; reflexivity.
+  - rewrite (parse_agree c p0) by congruence. split; [|reflexivity].
+    unfold branch_of. rewrite E, !split_splitc. symmetry. apply hd_splitc_rstrip.
+Qed.
+
+(* ======================================================================================== *)
+(* 29. prop_C05 holds of the model: list_to_tree and dict_to_tree (duplicates allowed)         *)
+
+(* key k is given a value by some row naming path P *)
+Definition bound (sep : str) (rows : list row) (P : path) (k : str) : Prop :=
+  exists r, In r rows /\ branch_of (fst r) sep = P /\ attr_get (rev (snd r)) k <> None.
+
+Lemma val_eq_dec (x y : val) : {x = y} + {x <> y}.
+Proof.
+  decide equality; try apply Z.eq_dec; try apply Bool.bool_dec. apply (list_eq_dec N.eq_dec).
+Qed.
+Lemma oval_eq_dec (x y : option val) : {x = y} + {x <> y}.
+Proof. decide equality. apply val_eq_dec. Qed.
+
+(* initial attributes that are all re-applied by the rows do not show in the final map *)
+Lemma upd_for_base_irrelevant sep P : forall rows a b,
+  (forall k, attr_get a k <> attr_get b k -> bound sep rows P k) ->
+  aeq (upd_for sep rows P a) (upd_for sep rows P b).
+Proof.
+  induction rows as [|r rows IH]; intros a b H.
+  - intros k. destruct (oval_eq_dec (attr_get a k) (attr_get b k)) as [E|E]; [exact E|].
+    destruct (H k E) as (r & [] & _).
+  - cbn [upd_for fold_left]. apply IH. intros k Hk. unfold step_attrs in Hk.
+    destruct (path_eqb (branch_of (fst r) sep) P) eqn:E.
+    + rewrite !attr_get_set_attrs_last in Hk. destruct (attr_get (rev (snd r)) k) eqn:Eg; [congruence|].
+      destruct (H k Hk) as (r' & [<-|Hin] & Hb & Hg); [congruence|]. exists r'. auto.
+    + destruct (H k Hk) as (r' & [<-|Hin] & Hb & Hg).
+      * rewrite Hb, path_eqb_refl in E. discriminate.
+      * exists r'. auto.
+Qed.
+
+Lemma etag_fresh_root r a p : etag (T None r a []) p = None.
+Proof. unfold etag. destruct p as [|y [|z l]]; cbn; try reflexivity; destruct (str_eqb r y); reflexivity. Qed.
+
+Lemma battrs_fresh_root r p : battrs (T None r [] []) p = [].
+Proof. unfold battrs. destruct p as [|y [|z l]]; cbn; try reflexivity; destruct (str_eqb r y); reflexivity. Qed.
+
+Lemma root_name_new k i :
+  is_new k = true ->
+  root_name k i = match i_rows i with [] => [] | r0 :: _ => hd [] (spec_parse (fst r0) (i_sep i)) end.
+Proof.
+  intros Hn. unfold root_name, prows. rewrite Hn. destruct (i_rows i) as [|r0 rows]; [reflexivity|].
+  cbn [map]. destruct (spec_parse (fst r0) (i_sep i)); reflexivity.
+Qed.
+
+(* a constructor: the model starts from a fresh root carrying a0, the specification from a bare one *)
+Lemma new_kind_structure k i c r a0 tsep mrows t' ps :
+  is_new k = true -> root_name k i = r -> prows k i = sprows c mrows -> r <> [] ->
+  NoDup (map fst a0) -> (forall key, attr_get a0 key <> None -> bound [c] mrows [r] key) ->
+  add_rows (T None r a0 []) tsep [c] true mrows [] = (t', Ret ps) ->
+  list_eqb path_eqb (paths t') (expected_paths k i) = true
+  /\ list_eqb opt_tag_eqb (map ttag (pre t')) (map (expected_tag k i) (paths t')) = true
+  /\ forallb2 (fun p nd => attrs_equiv (tattrs nd) (expected_attrs k i p)) (paths t') (pre t') = true
+  /\ forallb (path_ok k i) (map fst (prows k i)) = true.
+Proof.
+  intros Hnew Hroot Hpr Hr Ha0 Hbound H.
+  set (b := T None r a0 []) in *.
+  assert (Hw : sib_ok b) by (constructor; constructor).
+  assert (Hwf : attrs_wf b).
+  { intros q s Hq. destruct q as [|j q]; [cbn in Hq; inversion Hq; subst; exact Ha0|]. cbn in Hq. destruct j; discriminate. }
+  assert (Hne : nonempty_names b).
+  { intros n Hn. unfold b in Hn. rewrite names_unfold in Hn. destruct Hn as [<-|[]]. exact Hr. }
+  assert (Hnd : NoDup (paths b)) by (cbn; repeat constructor; intros []).
+  destruct (core_accepted c tsep _ _ _ _ Hw Hwf Hne Hnd H) as (F1 & F2 & _ & _ & F5 & _).
+  destruct (add_rows_accepted_ok c tsep _ _ _ _ _ Hne H) as (_ & Hn' & Hrows). cbn [tname b] in Hn'.
+  unfold expected_paths, all_paths, expected_tag, expected_attrs, base_attrs, path_ok, wrong_root, base.
+  rewrite Hnew, Hroot, Hpr. split; [|split; [|split]].
+  - rewrite F1. apply list_eqb_refl. apply path_eqb_refl.
+  - rewrite F2. erewrite map_ext; [|intros p; apply etag_fresh_root].
+    apply list_eqb_refl. apply opt_tag_eqb_refl.
+  - apply positions_forallb2. intros q s' Hq.
+    change (match assoc_path (names_along t' q) (combine (paths (T None r [] [])) (map tattrs (pre (T None r [] [])))) with
+            | Some a => a | None => [] end) with (battrs (T None r [] []) (names_along t' q)).
+    rewrite battrs_fresh_root.
+    assert (Efold : fold_left (fun a r1 => if path_eqb (fst r1) (names_along t' q) then set_attrs a (snd r1) else a)
+                              (sprows c mrows) []
+                    = upd_for [c] mrows (names_along t' q) []).
+    { unfold upd_for, sprows. rewrite fold_left_map. apply fold_left_ext_in.
+      intros a r1 Hr1. cbn [fst snd]. unfold step_attrs. now rewrite (proj1 (Hrows r1 Hr1)). }
+    rewrite Efold. apply attrs_equiv_true.
+    + eapply add_rows_attrs_wf; eauto.
+    + apply upd_for_keys. constructor.
+    + eapply aeq_trans; [eapply add_rows_attrs; eauto|].
+      destruct q as [|j q].
+      * cbn [names_along]. rewrite Hn'. unfold attrs_at, b. cbn [subtree_at tattrs].
+        apply upd_for_base_irrelevant. intros key Hk. apply Hbound. cbn in Hk. congruence.
+      * unfold attrs_at, b. cbn [subtree_at tkids]. destruct j; cbn; apply aeq_refl.
+  - exact F5.
+Qed.
+
+Theorem model_satisfies_KList i c :
+  i_sep i = [c] -> i_dup i = true -> prop_C05 KList i (run KList i) = true.
+Proof.
+  intros Hsep Hdup. unfold prop_C05. cbn [is_byname]. unfold prop_paths.
+  destruct (guards KList i) eqn:G; [cbn [negb]|reflexivity].
+  unfold run. rewrite Hsep. cbn [is_nil]. rewrite Hdup.
+  pose proof (root_name_new KList i eq_refl) as Hrn.
+  destruct (i_rows i) as [|[p0 a0] rows] eqn:Er.
+  - cbn [map list_to_tree out_new o_res o_tree]. unfold expected_accept, no_call. rewrite Er. reflexivity.
+  - cbn [map fst]. rewrite list_to_tree_full. rewrite Hsep in Hrn. cbn [fst] in Hrn.
+    destruct (root_inference c p0) as [Hri _]. rewrite Hri, <- Hrn.
+    set (r := root_name KList i) in *.
+    destruct (is_nil r) eqn:En.
+    + cbn [out_new o_res o_tree]. unfold expected_accept, no_call. rewrite Er. fold r. rewrite En.
+      cbn. reflexivity.
+    + set (mrows := map (fun p => (p, @nil (str * val))) (p0 :: map fst rows)).
+      assert (Hpr : prows KList i = sprows c mrows).
+      { unfold prows, sprows, mrows. rewrite Er, Hsep. cbn [map fst snd spec_filter]. f_equal.
+        rewrite !map_map. reflexivity. }
+      assert (Hr : r <> []) by (destruct r; [discriminate|discriminate]).
+      destruct (add_rows (T None r [] []) [c] [c] true mrows []) as [t1 [ps|e]] eqn:H; cbn [collapse out_new o_res o_tree o_rets].
+      * destruct (new_kind_structure KList i c r [] [c] mrows t1 ps eq_refl eq_refl Hpr Hr) as (C1 & C2 & C3 & C4);
+          [constructor|intros key Hk; cbn in Hk; congruence|exact H|].
+        rewrite C1, C2, C3. unfold rets_ok. cbn [o_rets list_eqb Nat.eqb andb]. cbn [orb andb].
+        rewrite andb_true_r. unfold expected_accept, no_call. rewrite Er at 1. cbn [is_nil negb orb andb is_frame].
+        rewrite C4, Hdup. fold r. rewrite En. reflexivity.
+      * unfold expected_accept, no_call. rewrite Er at 1. cbn [is_nil negb orb andb is_frame is_new].
+        destruct (forallb (path_ok KList i) (map fst (prows KList i))) eqn:Hok; [|now rewrite !andb_false_r].
+        exfalso.
+        destruct (add_rows_ok_accepted c [c] mrows (T None r [] []) []) as (t' & ps & Hacc).
+        -- constructor; constructor.
+        -- intros r1 Hr1. cbn [tname]. rewrite forallb_forall in Hok. rewrite Hpr in Hok.
+           specialize (Hok (spec_parse (fst r1) [c])). unfold path_ok, wrong_root in Hok. fold r in Hok.
+           apply Hok. unfold sprows. rewrite map_map. apply in_map_iff. exists r1. auto.
+        -- rewrite Hacc in H. discriminate.
+Qed.
+
+Lemma splitc_no_sep c : forall s x, In x (splitc c s) -> ~ In c x.
+Proof.
+  induction s as [|ch t IH]; intros x Hx; cbn [splitc] in Hx.
+  - destruct Hx as [<-|[]]. intros [].
+  - destruct (N.eqb c ch) eqn:E.
+    + destruct Hx as [<-|Hx]; [intros []|now apply IH].
+    + pose proof (splitc_nonempty c t) as Hne. destruct (splitc c t) as [|h r] eqn:Es; [congruence|].
+      destruct Hx as [<-|Hx].
+      * intros [->|Hin]; [now rewrite N.eqb_refl in E|]. apply (IH h); [now left|exact Hin].
+      * apply IH. now right.
+Qed.
+
+Lemma branch_of_word c r : r <> [] -> ~ In c r -> branch_of r [c] = [r].
+Proof.
+  intros Hr Hc. rewrite <- (join_single [c] r) at 1. apply branch_of_join.
+  - discriminate.
+  - intros x [<-|[]]. exact Hc.
+  - exact Hr.
+  - exact Hr.
+Qed.
+
+Lemma first_nonempty_In l : first_nonempty l <> [] -> In (first_nonempty l) l.
+Proof.
+  unfold first_nonempty. intros H. destruct (filter (fun a => negb (is_nil a)) l) as [|a r] eqn:E; [congruence|].
+  assert (Hin : In a (filter (fun a => negb (is_nil a)) l)) by (rewrite E; now left).
+  now apply filter_In in Hin as [Hin _].
+Qed.
+
+Lemma dict_get_In d k a : dict_get d k = Some a -> In (k, a) d.
+Proof.
+  induction d as [|[k' v] d IH]; intros H; [discriminate|]. cbn [dict_get] in H.
+  destruct (str_eqb k' k) eqn:E; [|right; now apply IH].
+  apply str_eqb_eq in E. inversion H; subst. now left.
+Qed.
+
+Lemma dict_filter_spec pcol a :
+  filter_attributes a [k_name] false = spec_filter KDict pcol a.
+Proof.
+  unfold filter_attributes, spec_filter, key_is. apply filter_ext. intros kv. cbn. now rewrite orb_false_r.
+Qed.
+
+Lemma dict_to_tree_form d sep k0 a0 rows :
+  d = (k0, a0) :: rows ->
+  dict_to_tree d sep true
+  = let r := hd [] (branch_of k0 sep) in
+    let get := fun k => match dict_get d k with Some a => a | None => [] end in
+    let ra := filter_attributes (first_nonempty [get r; get (sep ++ r); get (r ++ sep); get (sep ++ r ++ sep)])
+                                [k_name] false in
+    if is_nil r then Raise TreeError
+    else collapse (add_rows (T None r (set_attrs [] ra) []) sep sep true
+                            (map (fun r0 : str * attrs => (fst r0, filter_attributes (snd r0) [k_name] false)) d) []).
+Proof. intros ->. reflexivity. Qed.
+
+Theorem model_satisfies_KDict i c :
+  i_sep i = [c] -> i_dup i = true -> prop_C05 KDict i (run KDict i) = true.
+Proof.
+  intros Hsep Hdup. unfold prop_C05. cbn [is_byname]. unfold prop_paths.
+  destruct (guards KDict i) eqn:G; [cbn [negb]|reflexivity].
+  destruct (guards_facts _ _ G) as (Hk & _ & _).
+  unfold run. rewrite Hsep. cbn [is_nil].
+  change (forallb (row_keys_ok [k_name]) (i_rows i)) with (keys_ok KDict i). rewrite Hk, Hdup.
+  pose proof (root_name_new KDict i eq_refl) as Hrn.
+  destruct (i_rows i) as [|[k0 a0] rows] eqn:Er.
+  - cbn [dict_to_tree out_new o_res o_tree]. unfold expected_accept, no_call. rewrite Er. reflexivity.
+  - rewrite <- Er. rewrite (dict_to_tree_form _ _ _ _ _ Er). cbv zeta.
+    rewrite Hsep in Hrn. cbn [fst] in Hrn.
+    destruct (root_inference c k0) as [_ Hri]. rewrite Hri, <- Hrn.
+    set (r := root_name KDict i) in *.
+    set (get := fun k => match dict_get (i_rows i) k with Some a => a | None => [] end).
+    set (mrows := map (fun r0 : str * attrs => (fst r0, filter_attributes (snd r0) [k_name] false)) (i_rows i)).
+    match goal with |- context [first_nonempty ?l] => set (A := first_nonempty l) end.
+    set (ra := filter_attributes A [k_name] false).
+    destruct (is_nil r) eqn:En.
+    + cbn [out_new o_res o_tree]. unfold expected_accept, no_call. rewrite Er. fold r. rewrite En. cbn. reflexivity.
+    + assert (Hr : r <> []) by (destruct r; [discriminate|discriminate]).
+      assert (Hpr : prows KDict i = sprows c mrows).
+      { unfold prows, sprows, mrows. rewrite Hsep, map_map. apply map_ext. intros r0. cbn [fst snd].
+        now rewrite dict_filter_spec with (pcol := i_pcol i). }
+      assert (Hrc : ~ In c r).
+      { rewrite Hrn. destruct (lstrip k0 [c]) as [|ch l] eqn:El.
+        - destruct (parse_empty c k0 El) as [E1 _]. rewrite E1. intros [].
+        - rewrite (parse_agree c k0) by congruence. unfold branch_of. rewrite split_splitc.
+          pose proof (splitc_nonempty c (rstrip (lstrip k0 [c]) [c])) as Hne.
+          destruct (splitc c (rstrip (lstrip k0 [c]) [c])) as [|h t] eqn:Es; [congruence|].
+          cbn [hd]. apply (splitc_no_sep c (rstrip (lstrip k0 [c]) [c])). rewrite Es. now left. }
+      assert (Hbound : forall key, attr_get (set_attrs [] ra) key <> None -> bound [c] mrows [r] key).
+      { intros key Hkey. rewrite attr_get_set_attrs_last in Hkey.
+        destruct (attr_get (rev ra) key) eqn:Eg; [|cbn in Hkey; congruence].
+        assert (HA : A <> []) by (intros E; unfold ra in Eg; rewrite E in Eg; discriminate).
+        pose proof (first_nonempty_In _ HA) as Hin. fold A in Hin. cbn [In] in Hin.
+        assert (Hex : exists kk, branch_of kk [c] = [r] /\ get kk = A).
+        { pose proof (branch_of_word c r Hr Hrc) as Hb.
+          destruct Hin as [E|[E|[E|[E|[]]]]].
+          - exists r. auto.
+          - exists ([c] ++ r). split; [|exact E]. cbn [app]. now rewrite branch_of_leading.
+          - exists (r ++ [c]). split; [|exact E]. now rewrite branch_of_trailing.
+          - exists ([c] ++ r ++ [c]). split; [|exact E]. cbn [app]. now rewrite branch_of_leading, branch_of_trailing. }
+        destruct Hex as (kk & Hb & Hg). unfold get in Hg.
+        destruct (dict_get (i_rows i) kk) as [a|] eqn:Ed; [|congruence]. subst a.
+        exists (kk, ra). split; [|split; [exact Hb|cbn [snd]; congruence]].
+        unfold mrows. apply in_map_iff. exists (kk, A). split; [reflexivity|now apply dict_get_In]. }
+      destruct (add_rows (T None r (set_attrs [] ra) []) [c] [c] true mrows []) as [t1 [ps|e]] eqn:H;
+        cbn [collapse out_new o_res o_tree o_rets].
+      * destruct (new_kind_structure KDict i c r (set_attrs [] ra) [c] mrows t1 ps eq_refl eq_refl Hpr Hr) as (C1 & C2 & C3 & C4);
+          [apply set_attrs_keys; constructor|exact Hbound|exact H|].
+        rewrite C1, C2, C3. unfold rets_ok. cbn [o_rets list_eqb Nat.eqb andb]. cbn [orb andb].
+        rewrite andb_true_r. unfold expected_accept, no_call. rewrite Er at 1. cbn [is_nil negb orb andb is_frame].
+        rewrite C4, Hdup. fold r. rewrite En. reflexivity.
+      * unfold expected_accept, no_call. rewrite Er at 1. cbn [is_nil negb orb andb is_frame is_new].
+        destruct (forallb (path_ok KDict i) (map fst (prows KDict i))) eqn:Hok; [|now rewrite !andb_false_r].
+        exfalso.
+        destruct (add_rows_ok_accepted c [c] mrows (T None r (set_attrs [] ra) []) []) as (t' & ps & Hacc).
+        -- constructor; constructor.
+        -- intros r1 Hr1. cbn [tname]. rewrite forallb_forall in Hok. rewrite Hpr in Hok.
+           specialize (Hok (spec_parse (fst r1) [c])). unfold path_ok, wrong_root in Hok. fold r in Hok.
+           apply Hok. unfold sprows. rewrite map_map. apply in_map_iff. exists r1. auto.
+        -- rewrite Hacc in H. discriminate.
+Qed.
+
+(* ======================================================================================== *)
+(* 30. duplicate names disallowed: accepted exactly when the permissive result has distinct names *)
+
+Definition str_eq_dec : forall a b : str, {a = b} + {a <> b} := list_eq_dec N.eq_dec.
+
+Lemma find_all_count nm : forall t, length (find_all nm t) = count_occ str_eq_dec (names t) nm.
+Proof.
+  induction t as [g n a ks IH] using tree_ind'. rewrite find_all_unfold, names_unfold, app_length.
+  cbn [count_occ]. assert (G : forall i l, Forall (fun k => length (find_all nm k) = count_occ str_eq_dec (names k) nm) l ->
+                             length (find_all_kids nm i l) = count_occ str_eq_dec (flat_map names l) nm).
+  { intros i l. revert i. induction l as [|k l IHl]; intros i Hf; [reflexivity|].
+    inversion Hf as [|? ? Hk Hl]; subst. rewrite find_all_kids_cons, app_length, map_length. cbn [flat_map].
+    rewrite count_occ_app. f_equal; [exact Hk|exact (IHl (S i) Hl)]. }
+  rewrite (G 0 ks IH). destruct (str_eq_dec n nm) as [->|Hne].
+  - rewrite str_eqb_refl. reflexivity.
+  - destruct (str_eqb n nm) eqn:E; [apply str_eqb_eq in E; contradiction|reflexivity].
+Qed.
+
+Lemma find_all_unique nm t : NoDup (names t) -> length (find_all nm t) <= 1.
+Proof. intros H. rewrite find_all_count. now apply NoDup_count_occ. Qed.
+
+Lemma find_all_notin nm t : ~ In nm (names t) -> find_all nm t = [].
+Proof.
+  intros H. destruct (find_all nm t) as [|q l] eqn:E; [reflexivity|]. exfalso. apply H.
+  destruct (find_all_sound nm t q) as (s & Hs & Hn); [rewrite E; now left|].
+  rewrite <- Hn. apply (subtree_names_incl q t s Hs). apply tname_in_names.
+Qed.
+
+Lemma grow_step_true_false tsep t parent pt nm last na t1 p1 :
+  NoDup (names t1) ->
+  subtree_at t parent = Some pt ->
+  grow_step tsep true t parent (names_along t parent ++ [nm]) nm last na = Ret (t1, p1) ->
+  grow_step tsep false t parent (names_along t parent ++ [nm]) nm last na = Ret (t1, p1)
+  /\ NoDup (names t) /\ (exists pt1, subtree_at t1 p1 = Some pt1)
+  /\ names_along t1 p1 = names_along t parent ++ [nm].
+Proof.
+  intros Hn1 Hp. unfold grow_step. rewrite Hp.
+  destruct (find_idx nm 0 (tkids pt)) as [|i [|j r]] eqn:F; [| |discriminate].
+  - destruct (is_nil nm) eqn:En; [discriminate|]. intros H. inversion H; subst t1 p1. clear H.
+    set (c0 := T None nm (if last then set_attrs [] na else []) []) in *.
+    pose proof (names_add_kid c0 parent t pt Hp) as Hperm.
+    assert (Hn1' : NoDup (names c0 ++ names t)) by (eapply Permutation_NoDup; eauto).
+    unfold c0 in Hn1'. rewrite names_unfold in Hn1'. cbn [flat_map app] in Hn1'.
+    inversion Hn1' as [|? ? Hnot Hn]; subst.
+    rewrite (find_all_notin nm t Hnot), En. split; [reflexivity|]. split; [exact Hn|]. split.
+    + rewrite subtree_at_app, (subtree_upd_at _ _ _ _ Hp). destruct pt as [g n a ks]. cbn.
+      rewrite nth_error_app2, Nat.sub_diag by lia. cbn. eauto.
+    + now rewrite (names_along_add_kid _ _ _ _ Hp).
+  - intros H. inversion H; subst t1 p1. clear H.
+    assert (Hi : In i (find_idx nm 0 (tkids pt))) by (rewrite F; now left).
+    apply find_idx_spec in Hi as [_ (k & Hk & Hname)]. rewrite Nat.sub_0_r in Hk.
+    assert (Hq : subtree_at t (parent ++ [i]) = Some k).
+    { rewrite subtree_at_app, Hp. cbn. now rewrite Hk. }
+    pose proof (find_all_complete nm t _ k Hq Hname) as Hin.
+    pose proof (find_all_unique nm t Hn1) as Hlen.
+    destruct (find_all nm t) as [|q [|q' l]]; [contradiction| |cbn in Hlen; lia].
+    destruct Hin as [->|[]].
+    pose proof (names_along_child parent t pt i k Hp Hk) as Hna. rewrite Hname in Hna.
+    unfold path_name. rewrite Hna, str_eqb_refl.
+    split; [reflexivity|]. split; [exact Hn1|]. split; [eauto|exact Hna].
+Qed.
+
+Lemma grow_step_true_names tsep t parent pt pref nm last na t1 p1 :
+  subtree_at t parent = Some pt ->
+  grow_step tsep true t parent pref nm last na = Ret (t1, p1) ->
+  exists extra, Permutation (names t1) (extra ++ names t).
+Proof.
+  intros Hp. unfold grow_step. rewrite Hp.
+  destruct (find_idx nm 0 (tkids pt)) as [|i [|j r]]; [| |discriminate].
+  - destruct (is_nil nm); [discriminate|]. intros H. inversion H; subst. eexists. eapply names_add_kid; eauto.
+  - intros H. inversion H; subst. exists []. reflexivity.
+Qed.
+
+Lemma grow_true_names tsep na : forall rest t parent pt done t' p,
+  subtree_at t parent = Some pt -> names_along t parent = done ->
+  grow tsep true t parent done rest na = (t', Ret p) ->
+  exists extra, Permutation (names t') (extra ++ names t).
+Proof.
+  induction rest as [|nm rest IH]; intros t parent pt done t' p Hp Hd H; cbn [grow] in H.
+  - inversion H; subst. exists []. reflexivity.
+  - subst done.
+    match type of H with context [grow_step ?a1 ?a2 ?a3 ?a4 ?a5 ?a6 ?a7 ?a8] =>
+      destruct (grow_step a1 a2 a3 a4 a5 a6 a7 a8) as [[t1 p1]|e] eqn:Hs; [|discriminate H] end.
+    destruct (grow_step_true_names _ _ _ _ _ _ _ _ _ _ Hp Hs) as [ex1 P1].
+    (* validity and name path of the new cursor: from the duplicate-free variant's lemma we only need
+       them for the recursion; obtain them directly *)
+    assert (Hv : exists pt1, subtree_at t1 p1 = Some pt1 /\ names_along t1 p1 = names_along t parent ++ [nm]).
+    { unfold grow_step in Hs. rewrite Hp in Hs.
+      destruct (find_idx nm 0 (tkids pt)) as [|i [|j r]] eqn:F; [| |discriminate].
+      - destruct (is_nil nm); [discriminate|]. inversion Hs; subst. clear Hs.
+        eexists. split.
+        + rewrite subtree_at_app, (subtree_upd_at _ _ _ _ Hp). destruct pt as [g n a ks]. cbn.
+          rewrite nth_error_app2, Nat.sub_diag by lia. reflexivity.
+        + now rewrite (names_along_add_kid _ _ _ _ Hp).
+      - inversion Hs; subst. clear Hs.
+        assert (Hi : In i (find_idx nm 0 (tkids pt))) by (rewrite F; now left).
+        apply find_idx_spec in Hi as [_ (k & Hk & Hname)]. rewrite Nat.sub_0_r in Hk.
+        exists k. split; [rewrite subtree_at_app, Hp; cbn; now rewrite Hk|].
+        rewrite (names_along_child parent t pt i k Hp Hk). now rewrite Hname. }
+    destruct Hv as (pt1 & Hp1 & Hn1).
+    destruct (IH t1 p1 pt1 _ t' p Hp1 Hn1 H) as [ex2 P2].
+    exists (ex2 ++ ex1). rewrite P2, P1. now rewrite app_assoc.
+Qed.
+
+Lemma Permutation_NoDup_tail {A} (l1 l2 ex : list A) :
+  Permutation l1 (ex ++ l2) -> NoDup l1 -> NoDup l2.
+Proof.
+  intros P H. eapply Permutation_NoDup in H; [|exact P]. now apply NoDup_app_inv in H as [_ H].
+Qed.
+
+Lemma grow_true_false tsep na : forall rest t parent pt done t' p,
+  NoDup (names t') ->
+  subtree_at t parent = Some pt -> names_along t parent = done ->
+  grow tsep true t parent done rest na = (t', Ret p) ->
+  grow tsep false t parent done rest na = (t', Ret p).
+Proof.
+  induction rest as [|nm rest IH]; intros t parent pt done t' p Hn' Hp Hd H; cbn [grow] in *.
+  - exact H.
+  - subst done.
+    match type of H with context [grow_step ?a1 ?a2 ?a3 ?a4 ?a5 ?a6 ?a7 ?a8] =>
+      destruct (grow_step a1 a2 a3 a4 a5 a6 a7 a8) as [[t1 p1]|e] eqn:Hs; [|discriminate H] end.
+    assert (Hn1 : NoDup (names t1)).
+    { assert (Hv : exists pt1, subtree_at t1 p1 = Some pt1 /\ names_along t1 p1 = names_along t parent ++ [nm]).
+      { unfold grow_step in Hs. rewrite Hp in Hs.
+        destruct (find_idx nm 0 (tkids pt)) as [|i [|j r]] eqn:F; [| |discriminate].
+        - destruct (is_nil nm); [discriminate|]. inversion Hs; subst. clear Hs.
+          eexists. split.
+          + rewrite subtree_at_app, (subtree_upd_at _ _ _ _ Hp). destruct pt as [g n a ks]. cbn.
+            rewrite nth_error_app2, Nat.sub_diag by lia. reflexivity.
+          + now rewrite (names_along_add_kid _ _ _ _ Hp).
+        - inversion Hs; subst. clear Hs.
+          assert (Hi : In i (find_idx nm 0 (tkids pt))) by (rewrite F; now left).
+          apply find_idx_spec in Hi as [_ (k & Hk & Hname)]. rewrite Nat.sub_0_r in Hk.
+          exists k. split; [rewrite subtree_at_app, Hp; cbn; now rewrite Hk|].
+          rewrite (names_along_child parent t pt i k Hp Hk). now rewrite Hname. }
+      destruct Hv as (pt1 & Hp1 & Hna1).
+      destruct (grow_true_names _ _ _ _ _ _ _ _ _ Hp1 Hna1 H) as [ex P].
+      eapply Permutation_NoDup_tail; eauto. }
+    destruct (grow_step_true_false _ _ _ _ _ _ _ _ _ Hn1 Hp Hs) as (Hf & _ & (pt1 & Hp1) & Hna1).
+    match goal with |- context [grow_step ?a1 false ?a3 ?a4 ?a5 ?a6 ?a7 ?a8] =>
+      replace (grow_step a1 false a3 a4 a5 a6 a7 a8) with (Ret (t1, p1)) by (symmetry; exact Hf) end.
+    eapply IH; eauto.
+Qed.
+
+Theorem add_path_true_false t tsep path sep na t' p :
+  NoDup (names t') ->
+  add_path_to_tree t tsep path sep true na = (t', Ret p) ->
+  add_path_to_tree t tsep path sep false na = (t', Ret p).
+Proof.
+  intros Hn. unfold add_path_to_tree. destruct (is_nil path); [discriminate|].
+  destruct (branch_of path sep) as [|b0 rest]; [discriminate|].
+  destruct (str_eqb b0 (tname t)) eqn:E; cbn [negb]; [|discriminate].
+  apply str_eqb_eq in E. subst b0.
+  destruct (grow tsep true t [] [tname t] rest na) as [t1 [p1|e]] eqn:Hg; [|discriminate].
+  intros H. inversion H; subst. clear H. rewrite names_set_attrs in Hn.
+  now rewrite (grow_true_false tsep na rest t [] t [tname t] t1 p Hn eq_refl eq_refl Hg).
+Qed.
+
